@@ -190,6 +190,8 @@ let minigo_line l =
         Printf.sprintf "wf=%d guarded=%d an=1 gsafe=%d clocal=%d | %s | %s | %s" (if wf then 1 else 0) (if guarded prog then 1 else 0) (if r.r_gsafe then 1 else 0)
           (if r.r_clocal then 1 else 0) (trigs r.r_decl)
           (String.concat " / " (List.map trigs r.r_funcs)) (String.concat " / " (List.map trigs r.r_dups)) in
+  let inferred = String.concat "," (List.concat (List.mapi (fun i fd -> if infer_sem (nat_of_int 64) fd then [string_of_int i] else []) funcs)) in
+  let head = head ^ " | " ^ inferred in
   let xfuel = nat_of_int 20000 in
   let runs = List.init (1 lsl nb) (fun i ->
     let oracle = List.init nb (fun j -> (i lsr j) land 1 = 1) in
